@@ -2219,7 +2219,15 @@ func builtinAppend(env *LEnv, args *LVal) *LVal {
 		// the result is unsealed storage this call owns, so chaining extends
 		// it as before.  Exactly one allocation on each arm -- the sealed
 		// copy is sized for the append rather than clamped and regrown.
-		if seq.sealed {
+		//
+		// The same gap exists for an UNSEALED seq when there are no values:
+		// append(clampCap(cells)) with nothing to append returns the input
+		// slice, so (append 'vector v) wrapped v's own cells in a second
+		// vector and an in-place (stable-sort < r) on the result reordered v
+		// -- contradicting "never shares storage with it" in the docstring.
+		// The clamp only forces a reallocation when something is appended,
+		// so the zero-values case takes the copying arm too.
+		if seq.sealed || len(vals) == 0 {
 			fresh := make([]*LVal, len(cells), len(cells)+len(vals))
 			copy(fresh, cells)
 			//elps:mutates appends into `fresh`, which this function allocated two lines above with capacity for exactly this append; the sealed input is only read
